@@ -4,7 +4,11 @@
 
 use std::cell::{Cell, RefCell};
 use std::collections::VecDeque;
-use std::sync::atomic::{AtomicBool, AtomicU64, Ordering};
+use std::sync::atomic::{AtomicBool, AtomicI32, AtomicU64, Ordering};
+
+extern "C" {
+    fn gettid() -> i32;
+}
 use std::sync::{Arc, Condvar, Mutex};
 
 use crate::rng::Rng;
@@ -50,6 +54,8 @@ pub struct State {
     pub forced_unblock: u64,
     /// threads presumed blocked inside jbonsai (on a lock another simulated thread holds)
     blocked: Vec<bool>,
+    /// threads that have reached `enter` (a thread that has not started yet is not "blocked")
+    entered: Vec<bool>,
     /// PileUp: threads parked at the pile-up site; `released` once the pile was let go
     parked: Vec<bool>,
     released: bool,
@@ -65,6 +71,8 @@ pub struct Sched {
     pub heartbeat: AtomicU64,
     /// set by the monitor for a thread whose baton was taken away while it was blocked
     pub lost: Vec<AtomicBool>,
+    /// kernel thread ids of the simulated threads (for the monitor's look at /proc)
+    pub tids: Vec<AtomicI32>,
     pub m: Mutex<State>,
     /// one condition variable per simulated thread: a hand-over wakes exactly the next runner
     pub cvs: Vec<Condvar>,
@@ -152,6 +160,7 @@ impl Sched {
             switches_by_site: [0; 32],
             forced_unblock: 0,
             blocked: vec![false; nthreads],
+            entered: vec![false; nthreads],
             parked: vec![false; nthreads],
             released: false,
             max_piled: 0,
@@ -162,7 +171,7 @@ impl Sched {
         let (first, len) = st.pick(0);
         st.current = first;
         st.pending_len = len;
-        Arc::new(Sched { heartbeat: AtomicU64::new(0), lost: (0..nthreads).map(|_| AtomicBool::new(false)).collect(), m: Mutex::new(st), cvs: (0..nthreads).map(|_| Condvar::new()).collect() })
+        Arc::new(Sched { heartbeat: AtomicU64::new(0), lost: (0..nthreads).map(|_| AtomicBool::new(false)).collect(), tids: (0..nthreads).map(|_| AtomicI32::new(0)).collect(), m: Mutex::new(st), cvs: (0..nthreads).map(|_| Condvar::new()).collect() })
     }
 
     /// Called by a simulated thread before it does anything: register and wait for the baton.
@@ -173,6 +182,9 @@ impl Sched {
         LOSTP.with(|l| l.set(&self.lost[id] as *const AtomicBool));
         ACTIVE.with(|a| a.set(true));
         let mut st = self.m.lock().unwrap();
+        st.entered[id] = true;
+        self.tids[id].store(unsafe { gettid() }, Ordering::SeqCst);
+        self.heartbeat.fetch_add(1, Ordering::Relaxed);
         if let Strategy::PileUp { site, .. } = st.strategy {
             PILE_SITE.with(|p| p.set(site));
         }
@@ -242,6 +254,10 @@ impl Sched {
         if h == usize::MAX {
             return st.alive.iter().any(|a| *a);
         }
+        if !st.entered[h] {
+            // the chosen thread has not even started yet (slow machine): nothing is blocked
+            return true;
+        }
         st.blocked[h] = true;
         self.lost[h].store(true, Ordering::SeqCst);
         st.tainted = true;
@@ -257,6 +273,27 @@ impl Sched {
         st.pending_len = len;
         self.cvs[next].notify_one();
         true
+    }
+
+    /// Monitor side: is the current baton holder asleep in the kernel (state 'S' in
+    /// /proc/self/task/<tid>/stat)? A holder only ever sleeps when it waits for a lock or similar
+    /// inside the code under test; a holder that merely runs a long stretch is 'R'.
+    pub fn holder_sleeping(self: &Arc<Sched>) -> Option<(usize, bool)> {
+        let h = {
+            let st = self.m.lock().unwrap();
+            if st.current == usize::MAX || !st.entered.get(st.current).copied().unwrap_or(false) {
+                return None;
+            }
+            st.current
+        };
+        let tid = self.tids[h].load(Ordering::SeqCst);
+        if tid == 0 {
+            return None;
+        }
+        let stat = std::fs::read_to_string(format!("/proc/self/task/{}/stat", tid)).ok()?;
+        // "<tid> (<comm>) <state> ..." - comm may contain spaces, so look after the last ')'
+        let state = stat.rsplit(')').next()?.trim_start().chars().next()?;
+        Some((h, state == 'S'))
     }
 
     fn switch(self: &Arc<Sched>, id: usize, site: u32) {
